@@ -6,6 +6,6 @@ CONSTANTS
   MaxCrashes = 2
   MaxRuns = 1
   Tolerated <- KnownRecovery
-  Gen = FALSE
+  Gen = "off"
 INVARIANTS NoClauseViolated InvQuiescentAtRelease InvDurLagsMem
 CHECK_DEADLOCK TRUE
